@@ -68,13 +68,17 @@ def gen(ctx):
                 # raster / pixel indices: integer lattices also come as (unsigned) integer or float32 arrays
                 coord_dtype=str(rng.choice(['float64', 'uint8', 'uint16', 'int16', 'int64', 'float32']))
                 if kind == 'lattice' else 'float64',
-                then_metric=str(rng.choice(['', '', 'cityblock', 'chebyshev'])))
+                then_metric=str(rng.choice(['', '', 'cityblock', 'chebyshev'])),
+                # a maximum lag (relative forms: the distance vector stays dense), and a later re-assignment on the
+                # computed instance: the search area does not depend on it, the pairs taking part do
+                maxlag=[None, None, None, 0.5, 0.75, 'median', 'mean'][int(rng.integers(0, 7))],
+                then_maxlag=[None, 0.9, 'mean', 'keep', 'keep'][int(rng.integers(0, 5))])
 
 
 def build(case, **over):
     kw = dict(azimuth=case['azimuth'], tolerance=case['tolerance'], bandwidth=case['bandwidth'],
               directional_model=case['directional_model'], n_lags=case['n_lags'], estimator=case['estimator'],
-              bin_func=case['bin_func'])
+              bin_func=case['bin_func'], maxlag=case.get('maxlag'))
     kw.update(over)
     with quiet():
         return DV(np.array(case['coords'], float).astype(case.get('coord_dtype', 'float64')),
@@ -184,9 +188,13 @@ def check_case(ctx, case):
     if sel == 0:
         return
     fn = binning.even_width_lags if case['bin_func'] == 'even' else binning.uniform_count_lags
-    ref, _ = fn(d[mask], case['n_lags'], None)
+    with quiet():
+        ml_now = V.maxlag
+    ref, _ = fn(d[mask], case['n_lags'], ml_now)
+    ctx.count('maxlag:' + str(case.get('maxlag')))
     if not all_close(edges, np.asarray(ref, float), rel=1e-12):
-        ctx.violation('edges', 'lag edges %r are not those of the selected pairs %r' % (edges.tolist(), list(ref)), case)
+        ctx.violation('edges', 'lag edges %r are not those of the selected pairs (within the maximum lag %r) %r' % (
+            edges.tolist(), ml_now, list(ref)), case)
         return
     # groups / counts / experimental = C01 model on the selected pairs
     gsel = groups[mask]
@@ -209,10 +217,30 @@ def check_case(ctx, case):
                 exp.tolist(), [None if v is None else float(v) for v in m]), case)
     ctx.lean.ask(['c01', 'exp', case['estimator'], frs(edges), frs(d[mask]), frs(diffs[mask])], cbe)
 
+    # the same instance after its maximum lag was re-assigned (everything had been computed): the result is the one of
+    # an instance built with that maximum lag
+    tm = case.get('then_maxlag', 'keep')
+    if tm != 'keep' and tm != case.get('maxlag'):
+        try:
+            with quiet():
+                V.maxlag = tm
+                got = (np.asarray(V.bins, float), np.asarray(V.lag_groups()), np.asarray(V.bin_count), np.asarray(V.experimental, float))
+                F = build(case, maxlag=tm)
+                want_ = (np.asarray(F.bins, float), np.asarray(F.lag_groups()), np.asarray(F.bin_count), np.asarray(F.experimental, float))
+        except ValueError as e:
+            ctx.reject('then-maxlag-ValueError:' + str(e)[:40])
+            return
+        ctx.count('after_maxlag_change:' + str(tm))
+        if len(got[0]) != len(want_[0]) or not all_close(got[0], want_[0], rel=1e-12) or got[1].tolist() != want_[1].tolist() \
+                or got[2].tolist() != want_[2].tolist() or not all_close(got[3], want_[3], rel=1e-9):
+            ctx.violation('after-maxlag-change', 'after maxlag=%r on the computed instance (was %r): edges %r counts %r, an instance '
+                          'built with it gives edges %r counts %r' % (tm, case.get('maxlag'), got[0].tolist(), got[2].tolist(),
+                                                                      want_[0].tolist(), want_[2].tolist()), case)
+            return
     # the same instance after its distance function was changed: the search area is defined by the bandwidth
     # the instance reports *now*, the lag edges by the selected pairs' distances in the new metric
     metric = case.get('then_metric')
-    if metric:
+    if metric and case.get('maxlag') is None and tm in ('keep', None):   # (a relative maxlag is resolved once: D8-iv, C06)
         try:
             with quiet():
                 V.set_dist_function(metric)
